@@ -1,7 +1,7 @@
 SPECIFICATION Spec
 CONSTANTS
-  Actors = {"a1", "a2", "a3", "a4"}
-  How <- H1
+  Actors = {"a1", "a2", "a3"}
+  How <- H2
   FixP = TRUE
 INVARIANTS PoisonIffPanic ReleasedAnyway
 CHECK_DEADLOCK TRUE
